@@ -1137,3 +1137,135 @@ def _kf_c38(self, tier):
 
 
 C38.kf_cases = _kf_c38
+
+
+def _ks(a, b):
+    """Two-sample Kolmogorov-Smirnov statistic."""
+    a, b = sorted(a), sorted(b)
+    i = j = 0
+    d = 0.0
+    na, nb = len(a), len(b)
+    while i < na and j < nb:
+        x = min(a[i], b[j])
+        while i < na and a[i] <= x:
+            i += 1
+        while j < nb and b[j] <= x:
+            j += 1
+        d = max(d, abs(i / na - j / nb))
+    return d
+
+
+@_register
+class C18(Spec):
+    check_id = 'C18'
+    family = 'int'
+    title = 'values opened inside protocols are statistically masked'
+    technique = ('deterministic simulation with seeded protocol randomness: two populations of runs differing only in a '
+                 'secret input; every value opened inside the library is recorded and the two empirical distributions per '
+                 'opening site are compared (two-sample KS, alpha=1e-9), plus mask-length and PRSS-uci freshness invariants')
+    level_text = ('weak statistical evidence by design: detects missing, reused or grossly short masks (mask shorter than '
+                  'about log2(N) bits of the k required); it cannot certify statistical distance 2^-k, which would need far '
+                  'more than 2^k samples')
+    quick = {'runs': 4800, 'wall': 85}
+    thorough = {'runs': 400000, 'wall': 900}
+    expected_probes = ('internal_openings', 'prss_evaluations')
+    rule = ('one evaluation = one simulated 3..5-party run of a small template program (comparison, lsb, mod, to_bits, '
+            'truncation, conversion, zero test) whose result is not opened; seeds alternate between the two secret inputs of '
+            'the template; non-trivial = at least one value was opened inside the library; per (template, opening site) the '
+            'two samples are compared after the batch')
+
+    TEMPLATES = [
+        # (name, family, type, secrets (pop0, pop1), statements using var 'a' [and 'b'])
+        ('sgn', 'int', {'l': 16}, (1, 32767), [['ltc', ['r'], ['a'], {'c': 0}]]),
+        ('sgn-neg', 'int', {'l': 16}, (-1, -32768), [['ltc', ['r'], ['a'], {'c': 0}]]),
+        ('eq', 'int', {'l': 16}, (5, 30000), [['eqc', ['r'], ['a'], {'c': 7}]]),
+        ('lsb', 'int', {'l': 16}, (2, 32766), [['lsb', ['r'], ['a'], {}]]),
+        ('mod3', 'int', {'l': 16}, (3, 32766), [['mod', ['r'], ['a'], {'b': 3}]]),
+        ('mod8', 'int', {'l': 16}, (8, 32760), [['mod', ['r'], ['a'], {'b': 8}]]),
+        ('to_bits', 'int', {'l': 12}, (0, 2047), [['to_bits', ['r'], ['a'], {}]]),
+        ('trailing_zeros', 'int', {'l': 12}, (1, 2047), [['trailing_zeros', ['r'], ['a'], {}]]),
+        ('floordiv', 'int', {'l': 16}, (10, 30000), [['floordiv', ['r'], ['a'], {'b': 10}]]),
+        ('trunc', 'fxp', {'l': 24, 'f': 8}, ([3, 2], [524287, 16]), [['sqr', ['r'], ['a'], {}]]),
+        ('fxp-cmp', 'fxp', {'l': 24, 'f': 8}, ([3, 2], [524287, 16]), [['ltc', ['r'], ['a'], {'c': [0, 1]}]]),
+    ]
+
+    def make_case(self, seed, tier):
+        rng = random.Random(f'C18/{seed // 2}')
+        i = (seed // 2) % len(self.TEMPLATES)
+        name, fam, td, secrets, stmts = self.TEMPLATES[i]
+        pop = seed % 2
+        m = rng.choice((3, 3, 5))
+        cfg = sample_cfg(rng, tier, m_min=m, m_max=m, t_min=1)
+        cfg.k = 30
+        cfg.mix = False
+        cfg.no_prss = bool((seed // (2 * len(self.TEMPLATES))) % 2)
+        a = secrets[pop]
+        if fam == 'int':
+            prog = intfam.gen_fixed(cfg, td['l'], [('a', a)], [list(s) for s in stmts], ['c0'], sender=0)
+            prog['stmts'].append(['const', ['c0'], [], {'value': 1}])
+        else:
+            prog = {'family': 'fxp', 'type': td, 'tags': [],
+                    'stmts': [['input', ['a'], [], {'sender': 0, 'value': a, 'dummy': [1, 2]}]] + [list(s) for s in stmts] +
+                             [['const', ['c0'], [], {'value': [1, 1, 'int']}]], 'outputs': ['c0']}
+        return {'family': fam, 'cfg': cfg.to_json(), 'prog': prog, 'seed': seed, 'template': name, 'pop': pop,
+                'strategy': {'sched': 'uniform', 'deliver': 'eager'}}
+
+    def monitors(self, case):
+        return [M.OpeningMonitor(), _OpeningExtract(case)]
+
+    def nontrivial(self, case, res):
+        return res.info.get('probes', {}).get('internal_openings', 0) > 0
+
+    def sample(self, case, res):
+        return {'seed': case['seed'], 'template': case.get('template'), 'population': case.get('pop'), 'cfg': case['cfg'],
+                'openings': [(s, [v[0] for v in vals][:3]) for s, vals in res.info.get('openings', [])[:4]]}
+
+    def post_batch(self, agg, tier):
+        import math
+        groups = {}
+        for ex in agg.extras:
+            for site, xs, bits in ex['sites']:
+                g = groups.setdefault((ex['tpl'], ex['noprss'], site), ([], [], []))
+                g[ex['pop']].extend(xs)
+                g[2].extend(bits)
+        out = []
+        self._summary = {}
+        for (tpl, noprss, site), (p0, p1, bits) in sorted(groups.items()):
+            n0, n1 = len(p0), len(p1)
+            if n0 < 50 or n1 < 50:
+                continue
+            d = _ks(p0, p1)
+            crit = 3.27 * math.sqrt((n0 + n1) / (n0 * n1))
+            self._summary[f'{tpl}/{"noprss" if noprss else "prss"}/{site}'] = {'n0': n0, 'n1': n1, 'ks': round(d, 4), 'crit': round(crit, 4),
+                                                                         'max_bits': max(bits) if bits else None}
+            if d > crit:
+                out.append(('invariant:opening-distribution',
+                            f'template {tpl} ({"no PRSS" if noprss else "PRSS"}), values opened at {site}: the two secret inputs give '
+                            f'different distributions (KS={d:.3f} > {crit:.3f}, n={n0}+{n1})', None))
+            nz = [b for b in bits if b > 1]
+            if nz and max(nz) < 30 + 1 - 3 and len(nz) >= 50:
+                out.append(('invariant:mask-too-short',
+                            f'template {tpl}, values opened at {site}: largest of {len(nz)} opened values has {max(nz)} bits; '
+                            f'a k=30 bit mask would give at least 28', None))
+        return out[:3]
+
+    def evidence_extra(self, agg, tier):
+        return {'opening_sites_compared': getattr(self, '_summary', {}),
+                'detectable': 'missing / reused masks and masks shorter than ~log2(n) bits; NOT distance 2^-k'}
+
+
+class _OpeningExtract:
+    def __init__(self, case):
+        self.case = case
+
+    def finish(self, w, res):
+        ops = res.info.get('openings', [])
+        sites = {}
+        for site, vals in ops:
+            xs, bits = sites.setdefault(site, ([], []))
+            for v, order in vals:
+                xs.append(v / order)
+                bits.append(v.bit_length())
+        res.info['extra'] = {'tpl': self.case.get('template'), 'pop': self.case.get('pop'), 'noprss': int(w.cfg.no_prss),
+                             'sites': [(s, xs, bits) for s, (xs, bits) in sorted(sites.items())]}
+        res.info.pop('openings', None)
